@@ -92,6 +92,13 @@ def build(c):
         aid = S.asm_id(ring, p) + 1
         specs[str(aid)] = full
         fulls[aid - 1] = full
+        if c.get('tp'):
+            # several time points, one power file each (another level and another pin pattern per time point); the
+            # model of time point k is held to the file of time point k
+            per_tp = [S.expand_power(dict(spec, q=spec['q'] * (1.0 + 0.18 * t), seed=(spec['seed'] + t) % 4), rings, nd)
+                      for t in range(c['tp'][0])]
+            specs[str(aid)] = per_tp
+            fulls[aid - 1] = per_tp[c['tp'][1]]
         assign.append(['A', ring, p, {'flowrate': 2.0 * (1 + 0.1 * i)}])
     setup = {}
     scn = {'setup': setup,
@@ -100,6 +107,8 @@ def build(c):
                     'bypass_fraction': 0.0 if c.get('gap_model', 'none') == 'none' else 0.05},
            'types': {'A': dsn}, 'assign': assign,
            'power': {'asm': specs, 'total': c.get('total'), 'scaling': c.get('scaling')}}
+    if c.get('tp'):
+        scn['power']['timepoints'] = c['tp'][0]
     return scn, fulls
 
 
@@ -115,7 +124,8 @@ def sweep_once(c, scale_override=None):
         scn['setup']['axial_mesh_size'] = step
     with S.Built(scn) as b:
         # 'out': the model is built the way the command line does it, writing its summary (reporting only)
-        rx = b.reactor(write_output=True) if c.get('out') else b.reactor()
+        kw = {'timestep': c['tp'][1]} if c.get('tp') else {}
+        rx = b.reactor(write_output=True, **kw) if c.get('out') else b.reactor(**kw)
         if c.get('rebuild'):
             # the same input (and the same power file) built a second / third time in this process: what is
             # deposited by the LAST model must still be what the file assigns
@@ -250,6 +260,12 @@ def cases(tier):
             for bounds in ('whole', 'aligned', 'both-mid'):
                 out.append(dict(base, zero_cell=zc, bounds=bounds))
         out.append(dict(base, upper='6node'))
+        # inputs with two / three time points: every time point's model
+        for ntp in (2, 3):
+            for k in range(ntp):
+                for scaling in (None, 0.5):
+                    for nasm in (1, 3):
+                        out.append(dict(base, tp=[ntp, k], scaling=scaling, nasm=nasm, bounds='whole'))
         for total in (None, 1.0e5):
             for scaling in (None, 0.5):
                 out.append(dict(base, total=total, scaling=scaling, rebuild=2, bounds='whole'))
@@ -289,6 +305,12 @@ def cases(tier):
             for bounds in BOUNDS:
                 for order in (0, 3):
                     out.append(dict(base, rings=rings, bounds=bounds, order=order))
+        for ntp in (2, 3, 4):
+            for k in range(ntp):
+                for scaling in (None, 0.5):
+                    for nasm in (1, 3):
+                        for bounds in ('whole', 'both-mid'):
+                            out.append(dict(base, tp=[ntp, k], scaling=scaling, nasm=nasm, bounds=bounds))
         for bounds in BOUNDS:
             for comps in COMPS:
                 for order in (0, 1, 2, 3):
